@@ -33,6 +33,29 @@ def gen_crash(tier, rng):
     return [crash.make_case(rng, i, rng.choice([15, 30, 50]), "step:2") for i in range(n)]
 
 
+def gen_crash_reuse(tier, rng):
+    """crash images with leftovers (orphan table files of an interrupted flush or compaction, temp files
+    of a CURRENT switch) reopened with reuse_log_files = true and a memtable budget large enough that
+    the replayed log is not flushed: the open reuses both the manifest and the last log, writes no new
+    version, and must still collect the leftovers (found missing by seeded change
+    C11-open-gc-only-after-new-snapshot: the collector call moved inside `if create_new_snapshot`)"""
+    cases = []
+    for i in range(2 if tier == "quick" else 40):
+        v = lambda: "p%d.%d.1" % (rng.choice([40, 60, 90]), rng.randrange(256))
+        # before the crash: a 256-byte memtable, so level-0 files pile up and automatic (merging)
+        # compactions run in the background while the current log already holds newer writes: a crash
+        # then leaves orphan outputs next to ONE non-empty log (two logs, or an empty one, force a
+        # flush at replay and with it a new version, which hides the case)
+        pre = "256:2097152:%d:1" % rng.choice([64, 1024])
+        post_cfg = "4194304:2097152:%d:1" % rng.choice([64, 1024])
+        toks = ["cr%d" % i, pre]
+        for _k in range(rng.choice([30, 45])):
+            toks.append("Px%02x=%s" % (rng.choice([0x61, 0x62, 0x63, 0x64, 0x65]), v()))
+        post = [post_cfg, "Px7a7a=" + v(), "Dx61", "Px7a7b=" + v()]
+        cases.append("%s # %s # all" % (" ".join(toks), " ".join(post)))
+    return cases
+
+
 def gen_proto(tier, rng):
     n = 24 if tier == "quick" else 1200
     return [proto.gen_history(rng, i, rng.choice([12, 25, 40, 60])) for i in range(n)]
@@ -54,7 +77,7 @@ def gen_fault_compaction(tier, rng):
 
 def suites(tier, seed, rng):
     return [dbh.DbSuite(dbh.corpus("C11") + gen_cases(tier, rng)),
-            crash.CrashSuite(gen_crash(tier, rng), WANT),
+            crash.CrashSuite(gen_crash(tier, rng) + gen_crash_reuse(tier, rng), WANT),
             proto.ProtoSuite(gen_proto(tier, rng)),
             names.NamesSuite(names.gen_cases(tier, rng)),
             sched.SchedSuite(sched.gen_cases(tier, rng, {"walgc"})),
